@@ -2,6 +2,7 @@ package checks
 
 import (
 	"context"
+	"strings"
 	"encoding/json"
 	"fmt"
 	"os"
@@ -30,7 +31,7 @@ func init() {
 		Level: "exploration",
 		Cases: func(tier string) int { return tierN(tier, 4000, 80000) },
 		Run:   runC11,
-		Rule: "case = (multihash configuration with file limits 50-1000 bytes, key universe, fill history that spreads records over several files, then a kill phase that removes/overwrites all keys of chosen non-current files, or all but a few (low-use scenario), followed by Flush and harness-driven GC cycles with a Flush after each; some cases start with cycles stopped midway by a synthetic deadline; in a quarter of the cases EVERY primary cycle is time-limited with a budget that expires while its first unvisited file is scanned, and the bounds grow by the number of non-current files). Oracle on directory listings, sizes, StorageSize and fsck's decoded layout: (a) every non-current primary file without live records is zero-length or unlinked within 4 primary cycles, and unlinked if it was the oldest file when visited; (b) every non-current index file no bucket refers into is zero-length or unlinked within 4 index cycles; (c) a primary file whose free share is >= threshold+10% is drained and released within live+4 cycles; (d) a cycle that relocated nothing does not grow StorageSize, otherwise growth is bounded by the relocated records, their rewritten record lists and 24 bytes of freelist per record; (e) after the bounds one more primary+index cycle and Flush changes no file. " +
+		Rule: "case = (multihash configuration with file limits 50-1000 bytes, key universe, fill history that spreads records over several files, then a kill phase that removes/overwrites all keys of chosen non-current files, or all but a few (low-use scenario), followed by Flush and harness-driven GC cycles with a Flush after each; some cases start with cycles stopped midway by a synthetic deadline; in a quarter of the cases EVERY primary cycle is time-limited with a budget that expires while its first unvisited file is scanned, and the bounds grow by the number of non-current files). Oracle on directory listings, sizes, StorageSize and fsck's decoded layout: (a) every non-current primary file without live records is zero-length or unlinked within 4 primary cycles, and unlinked if it was the oldest file when visited; (b) every non-current index file no bucket refers into is zero-length or unlinked within 4 index cycles; (c) a primary file whose free share is >= threshold+10% is, within live+4 cycles, drained and released or shortened by truncation of its free tail until its free share is below that again; (d) a cycle that relocated nothing does not grow StorageSize, otherwise growth is bounded by the relocated records, their rewritten record lists and 24 bytes of freelist per record; (e) after the bounds one more primary+index cycle and Flush changes no file. " +
 			"non-trivial iff at least one dead or low-use file existed and was released; distinct = hash of (configuration, digests, operations, scenario)",
 		Assumptions: []string{
 			"progress is measured in harness-driven cycles with a Flush between cycles (the statement's 'change flushed')",
@@ -87,6 +88,7 @@ func runC11(c run.Ctx) *core.CaseResult {
 	}
 	defer env.Cleanup()
 	rt := hookrt.New()
+	rt.LogEvents = os.Getenv("VERIF_DEBUG") != ""
 	rt.Install()
 	defer hookrt.Uninstall()
 	u := gen.MakeUniverse(r, cfg.Primary, 10+r.IntN(40))
@@ -270,6 +272,15 @@ func runC11(c run.Ctx) *core.CaseResult {
 		res.Add("cases_with_interrupted_cycles", 1)
 	}
 
+	if os.Getenv("VERIF_DEBUG") != "" {
+		var names []string
+		for _, e := range rt.Events() {
+			if strings.HasPrefix(e.Name, "mh.gc.") || strings.HasPrefix(e.Name, "store.flush.after") {
+				names = append(names, fmt.Sprintf("%s(%v)", e.Name[3:], e.V))
+			}
+		}
+		fmt.Fprintf(os.Stderr, "trace tail: %v\nlast ops: %v\n", names[max(0, len(names)-80):], trace[max(0, len(trace)-12):])
+	}
 	// visit log: (file, header FirstFile at visit)
 	type visit struct{ file, first uint32 }
 	var visits []visit
@@ -336,6 +347,16 @@ func runC11(c run.Ctx) *core.CaseResult {
 		}
 		res.Add("progress_cycles", 1)
 		ds := c11Dir(env)
+		if os.Getenv("VERIF_DEBUG") != "" {
+			var ls []string
+			for n, sz := range ds.files {
+				if strings.HasPrefix(n, "d/") {
+					ls = append(ls, fmt.Sprintf("%s:%d", n[2:], sz))
+				}
+			}
+			sort.Strings(ls)
+			fmt.Fprintf(os.Stderr, "cycle %d reloc=%d marks=%d visits=%v files=%v gcerr=%v\n", i, rt.Count("mh.gc.relocate.after-put"), rt.Count("mh.gc.freelist.before-mark"), visits, ls, rn.LastGCErr)
+		}
 		lN, rN := layout()
 		if lN == nil {
 			return res
@@ -406,7 +427,33 @@ func runC11(c run.Ctx) *core.CaseResult {
 			}
 		}
 	}
+	// a low-use file may also stop being low-use: relocation plus truncation of its free tail can leave a
+	// shorter file whose live share is above the threshold again; the clause then no longer applies to it
+	lFin, rFin := layout()
+	stillLow := func(f uint32) bool {
+		if lFin == nil {
+			return true
+		}
+		pf, ok := lFin.PrimFiles[f]
+		if !ok || pf.Len == 0 {
+			return false
+		}
+		var all, busy int64
+		for _, rec := range pf.Recs {
+			all += int64(rec.Size)
+		}
+		for _, loc := range rFin.Content {
+			if uint32(loc.Off/pmfs) == f {
+				busy += int64(loc.Size)
+			}
+		}
+		return all > 0 && 100*(all-busy) >= int64(threshold+10)*all
+	}
 	for _, f := range lowUse {
+		if _, ok := lowReleasedAt[f]; !ok && !stillLow(f) {
+			res.Add("lowuse_files_no_longer_lowuse_after_truncation", 1)
+			continue
+		}
 		if _, ok := lowReleasedAt[f]; !ok {
 			res.Violate("gc-progress", "c11-lowuse-file-not-drained", step, nil, "primary file %d with free share >= %d%% (threshold %d) was not drained and released within %d cycles", f, threshold+10, threshold, bound)
 		}
